@@ -7,6 +7,7 @@ import (
 	"fmt"
 	"math/bits"
 	"sort"
+	"strings"
 	"time"
 
 	"verif/engine/core"
@@ -285,6 +286,29 @@ func checkRecoveredQueue(cfg queuedrv.Cfg, img []byte, allowed map[uint64][2]int
 }
 
 func replayQCrash(raw json.RawMessage) []string {
+	var hdr struct {
+		Kind string `json:"kind"`
+	}
+	json.Unmarshal(raw, &hdr)
+	if hdr.Kind == "qfault" {
+		var d struct {
+			Task QFaultTask `json:"task"`
+		}
+		if err := json.Unmarshal(raw, &d); err != nil {
+			return []string{"violation: bad replay document"}
+		}
+		fmt.Printf("queue %s history: %s\n  plan: %+v\n", d.Task.Cfg, queuedrv.PathString(d.Task.Path), d.Task.Only)
+		js, _ := json.Marshal(d.Task)
+		r := handleQFault(js).(FaultResult)
+		var out []string
+		if r.EngineError != "" {
+			out = append(out, "violation: engine error: "+r.EngineError)
+		}
+		for _, v := range r.Viol {
+			out = append(out, fmt.Sprintf("violation: class=%s %s", v.Class, v.Msg))
+		}
+		return out
+	}
 	var d struct {
 		Task QCrashTask `json:"task"`
 	}
@@ -411,6 +435,10 @@ func runC06(ctx *core.Ctx, pool *par.Pool) {
 			ctx.Cap("queue %s: deadline reached, %d of %d I/O shapes not crash-tested", c, skipped, len(tasks))
 		}
 	}
+	// transient I/O failures during flush/ACK/close, then retry: nothing accepted may be lost or duplicated
+	fp, fe := runQFaultPass(ctx, pool, []QCfgSpec{{File: "C", Buffer: 5}, {File: "A", Buffer: 5}})
+	ctx.Set("fault_plans", fp)
+	ctx.Set("fault_plans_effective", fe)
 	if capped > 0 {
 		ctx.Cap("%d boundaries had more than %d pending units: subsets of size <=2, their complements and all log prefixes only", capped, maxBits)
 	}
@@ -423,4 +451,192 @@ func runC06(ctx *core.Ctx, pool *par.Pool) {
 	ctx.Set("distinct_nontrivial", nontrivial)
 	ctx.Set("distinct_recovery_outcomes", len(outcomes))
 	ctx.Set("rule", "crash image of a queue history = contents as of the last completed sync before an I/O boundary of its last operation (event write with implicit flush, Flush, ACK, close) + a subset of the later page writes/truncates, header writes also torn at 13 offsets; distinct = distinct image bytes per history; non-trivial = proper non-empty subset persisted or torn header. Clean close/reopen points are covered by the Reopen operation of the C05/C17 search")
+}
+
+// ---- fault pass: transient I/O failures during flush / ACK, then retry ----
+
+// QFaultTask enumerates fault plans over the I/O window of the last operation
+// of Path; afterwards the failures stop, the producer retries and everything
+// accepted must still be delivered exactly once, in order.
+type QFaultTask struct {
+	Type string       `json:"type"`
+	Cfg  QCfgSpec     `json:"cfg"`
+	Path []Q          `json:"path"`
+	Only *FaultRecipe `json:"only,omitempty"`
+}
+
+func init() { TaskHandlers["qfault"] = handleQFault }
+
+func runQFault(cfg queuedrv.Cfg, path []Q, rec *FaultRecipe) (viol []pagedrv.Violation, outcome string, calls []simdisk.CallKind, window [2]int, faults int) {
+	var env *queuedrv.Env
+	sv := xstate.Run(func() {
+		var err error
+		env, err = queuedrv.New(cfg)
+		if err != nil {
+			viol = append(viol, pagedrv.Violation{Class: "engine", Msg: err.Error()})
+			return
+		}
+		env.TolerateFaults = true
+		for i, op := range path {
+			if env.Dead || !env.Enabled(op) {
+				continue
+			}
+			if i == len(path)-1 {
+				window[0] = env.Disk.CallCount()
+				if rec != nil && rec.Index >= 0 {
+					env.Disk.SetPlan(&simdisk.Plan{Index: rec.Index, Kind: rec.Kind, Burst: rec.Burst})
+				}
+			}
+			env.Apply(op)
+		}
+		window[1] = env.Disk.CallCount()
+		calls = append([]simdisk.CallKind(nil), env.Disk.CallLog...)
+		faults = env.Disk.Faults
+		env.Disk.SetPlan(nil)
+		if env.Dead {
+			return
+		}
+		// the failures stopped: retry, go on producing, consume everything
+		steps := []Q{{K: queuedrv.QFinish}, {K: queuedrv.QFlush}, {K: queuedrv.QWrite, A: 700, B: queuedrv.ChunkFirst}, {K: queuedrv.QFlush},
+			{K: queuedrv.QWrite, A: 1500}, {K: queuedrv.QFlush}, {K: queuedrv.QReadAll}, {K: queuedrv.QAck}, {K: queuedrv.QWrite, A: 300}, {K: queuedrv.QFlush},
+			{K: queuedrv.QReadAll}, {K: queuedrv.QAck}, {K: queuedrv.QReopen}, {K: queuedrv.QReadAll}}
+		f0 := env.Full
+		for _, op := range steps {
+			if env.Dead {
+				break
+			}
+			if env.Enabled(op) {
+				env.Apply(op)
+			}
+		}
+		if !env.Dead && env.Full == f0 && env.ReadPos != len(env.Events) {
+			env.Viol = append(env.Viol, pagedrv.Violation{Class: "qfault/lost-events", Msg: fmt.Sprintf("after the failures stopped %d events were accepted and flushed, the reader delivered events up to #%d", len(env.Events), env.ReadPos)})
+		}
+		outcome = fmt.Sprintf("faulted-ops=%d delivered=%d", env.Faulted, env.ReadPos)
+	})
+	if env != nil {
+		viol = append(viol, env.Viol...)
+	}
+	for _, v := range sv {
+		viol = append(viol, v)
+	}
+	for i := range viol {
+		if !strings.HasPrefix(viol[i].Class, "qfault/") {
+			viol[i].Class = "qfault/" + viol[i].Class
+		}
+	}
+	return
+}
+
+func handleQFault(raw []byte) interface{} {
+	var t QFaultTask
+	if err := json.Unmarshal(raw, &t); err != nil {
+		return FaultResult{EngineError: err.Error()}
+	}
+	cfg, err := t.Cfg.cfg()
+	if err != nil {
+		return FaultResult{EngineError: err.Error()}
+	}
+	res := FaultResult{Outcomes: map[string]int{}}
+	seen := map[string]bool{}
+	viol, _, calls, window, _ := runQFault(cfg, t.Path, &FaultRecipe{Index: -1})
+	if len(viol) > 0 {
+		for _, v := range viol {
+			v.Class = "fault-free-run/" + v.Class
+			res.Viol = append(res.Viol, FaultViolation{Violation: v, Recipe: FaultRecipe{Index: -1}})
+		}
+		return res
+	}
+	res.Calls = window[1] - window[0]
+	for idx := window[0]; idx < window[1] && idx < len(calls); idx++ {
+		for _, kind := range kindsFor(calls[idx]) {
+			for _, burst := range []int{1, 2} {
+				rec := FaultRecipe{Index: idx, Kind: kind, Burst: burst}
+				if t.Only != nil && *t.Only != rec {
+					continue
+				}
+				res.Plans++
+				viol, outcome, _, _, faults := runQFault(cfg, t.Path, &rec)
+				if faults > 0 {
+					res.Effective++
+				}
+				res.Outcomes[outcome]++
+				for _, v := range viol {
+					if seen[v.Class] {
+						continue
+					}
+					seen[v.Class] = true
+					v.Msg = fmt.Sprintf("%s of I/O call #%d (%s) for %d call(s) during the last operation: %s", kind, idx, calls[idx], burst, v.Msg)
+					res.Viol = append(res.Viol, FaultViolation{Violation: v, Recipe: rec})
+				}
+				if res.Sample == nil && faults > 0 {
+					res.Sample = map[string]interface{}{"history": queuedrv.PathString(t.Path), "failing_call": fmt.Sprintf("#%d %s", idx, calls[idx]), "kind": kind.String(), "burst": burst, "observed": outcome}
+				}
+			}
+		}
+	}
+	return res
+}
+
+// queue histories whose last operation is fault-tested
+func qFaultHistories() [][]Q {
+	W := func(n int) Q { return Q{K: queuedrv.QWrite, A: n} }
+	F, RA, A := Q{K: queuedrv.QFlush}, Q{K: queuedrv.QReadAll}, Q{K: queuedrv.QAck}
+	pre := []Q{W(700), W(700), W(700), W(700), F, RA, A} // leaves freed pages on the free list
+	cat := func(xs ...[]Q) []Q {
+		var out []Q
+		for _, x := range xs {
+			out = append(out, x...)
+		}
+		return out
+	}
+	return [][]Q{
+		{W(700), F},
+		{W(700), W(1500), W(3000), F},
+		cat(pre, []Q{W(700), W(700), W(700), W(700), F}),
+		cat(pre, []Q{W(2500), W(2500), W(2500)}), // implicit flush inside Write
+		cat(pre, []Q{W(700), W(700), F, RA, A}),  // failing ACK
+		{W(5200), W(10), F, RA, {K: queuedrv.QAck, A: 1}},
+	}
+}
+
+func runQFaultPass(ctx *core.Ctx, pool *par.Pool, cfgs []QCfgSpec) (plans, effective int) {
+	var tasks []QFaultTask
+	for _, c := range cfgs {
+		for _, h := range qFaultHistories() {
+			tasks = append(tasks, QFaultTask{Type: "qfault", Cfg: c, Path: h})
+		}
+	}
+	raw := make([][]byte, len(tasks))
+	for i := range tasks {
+		raw[i], _ = json.Marshal(tasks[i])
+	}
+	skipped := 0
+	pool.Run(raw, ctx.Deadline, 15*time.Minute, func(i int, out []byte, terr *par.TaskError) {
+		t := tasks[i]
+		if terr != nil {
+			ctx.EngineError("qfault [%s]: %s %s", queuedrv.PathString(t.Path), terr.Msg, terr.Stderr)
+			return
+		}
+		var r FaultResult
+		if err := json.Unmarshal(out, &r); err != nil || r.EngineError != "" {
+			ctx.EngineError("qfault [%s]: %v %s", queuedrv.PathString(t.Path), err, r.EngineError)
+			return
+		}
+		plans += r.Plans
+		effective += r.Effective
+		if r.Sample != nil {
+			ctx.AddSample(r.Sample)
+		}
+		for _, v := range r.Viol {
+			tt := t
+			rec := v.Recipe
+			tt.Only = &rec
+			ctx.Violate(v.Class, fmt.Sprintf("queue %s history [%s]: %s", t.Cfg, queuedrv.PathString(t.Path), v.Msg), map[string]interface{}{"kind": "qfault", "task": tt})
+		}
+	}, func(int) { skipped++ })
+	if skipped > 0 {
+		ctx.Cap("deadline reached: %d queue fault histories not run", skipped)
+	}
+	return
 }
